@@ -27,6 +27,24 @@ fn main() {
     }
     install_panic_hook();
     let t0 = Instant::now();
+    if cmd == "aligned" {
+        // vcheck aligned <set> <rho-hex> <row> <k>: run the aligned-residue construction, print JSON
+        let p = refmodel::params(args[2].parse().expect("set"));
+        let rho = hex::decode(&args[3]).expect("rho hex");
+        let row: usize = args[4].parse().expect("row");
+        let k: usize = args[5].parse().expect("k");
+        match fips204_verif::gen::aligned::construct(&p, &rho, row, k) {
+            Some(a) => {
+                println!("{}", serde_json::to_string(&a).expect("json"));
+                eprintln!("estimate {} = {:.2} x 2^31 in {:.1}s", a.estimate, a.estimate as f64 / 2f64.powi(31), t0.elapsed().as_secs_f64());
+            }
+            None => {
+                eprintln!("no small-preimage combination found");
+                std::process::exit(3);
+            }
+        }
+        return;
+    }
     let full_selftest = cmd == "selftest";
     match refmodel::selftest::run(&root, full_selftest) {
         Ok(r) => {
